@@ -44,7 +44,7 @@ theorem branchTargetVarint_bound {prog : List Nat} {pc t sz : Nat} (hpc : pc < p
     simp only [List.length_drop] at hb
     simp only [] at h
     generalize htg : (if o < 0 then (pc : Int) + o else (pc : Int) + ((1 + n : Nat) : Int) + o) = tg at h
-    by_cases hc : tg > (prog.length : Int) ∨ tg < 0
+    by_cases hc : tg > (prog.length : Int) ∨ tg ≤ 0
     · rw [if_pos hc] at h; cases h
     · rw [if_neg hc] at h
       injection h with h; injection h with h1 h2
@@ -61,8 +61,8 @@ theorem branchTarget_bound {lim : Limits} {prog : List Nat} {pc v t : Nat}
     split at h
     · cases h
     · simp only [] at h
-      generalize htf : (if v ≥ 2 then decide ((pc : Int) + 3 + off > (prog.length : Int) ∨ (pc : Int) + 3 + off < 0)
-        else decide ((pc : Int) + 3 + off ≥ (prog.length : Int) ∨ (pc : Int) + 3 + off < 0)) = tf at h
+      generalize htf : (if v ≥ 2 then decide ((pc : Int) + 3 + off > (prog.length : Int) ∨ (pc : Int) + 3 + off ≤ 0)
+        else decide ((pc : Int) + 3 + off ≥ (prog.length : Int) ∨ (pc : Int) + 3 + off ≤ 0)) = tf at h
       cases tf with
       | true => simp at h
       | false =>
